@@ -24,7 +24,7 @@ BAND = 0.06   # guard band around timeouts (simulated seconds)
 class Check:
     id = 'C12'
     level = 'exploration'
-    quick_n = 700
+    quick_n = 1500
     thorough_budget_s = 900
     scenario_wall_limit = 240.0
     shrink_runs = 240
@@ -73,7 +73,7 @@ class Check:
         tests: T.List[T.Dict[str, T.Any]] = []
         for i in range(ntests):
             proj = C.SUB if rng.random() < sw['sub_p'] else C.TOP
-            suites_pool = ['sa', 'sb', 'sc'] if proj == C.TOP else ['xa', 'xb']
+            suites_pool = ['sa', 'sb', 'sc', 'sh'] if proj == C.TOP else ['xa', 'xb', 'sh']   # 'sh' exists in both projects
             suites = sorted(rng.sample(suites_pool, rng.choice([0, 0, 1, 1, 2])))
             timeout = rng.choice([30, 30, 1, 2, 3, 5, 0, -1]) if rng.random() < 0.6 else 30
             t: T.Dict[str, T.Any] = {
@@ -108,10 +108,13 @@ class Check:
         # selection
         sel_mode = rng.choice(['all', 'all', 'suite', 'nosuite', 'names', 'exclude', 'suite+names'])
         if 'suite' in sel_mode and sel_mode != 'nosuite':
-            cands = ['sa', 'sb', f'{C.TOP}:sa', f'{C.TOP}:sc', f'{C.SUB}:xa', f'{C.SUB}:xb', ':sb', C.SUB, C.TOP]
+            # the shared suite 'sh' is only ever named in qualified form (the bare form is not
+            # decided by the documentation for a subproject's suite of the same name)
+            cands = ['sa', 'sb', f'{C.TOP}:sa', f'{C.TOP}:sc', f'{C.SUB}:xa', f'{C.SUB}:xb', ':sb', C.SUB, C.TOP,
+                     f'{C.TOP}:sh', f'{C.SUB}:sh', ':sh']
             run['suites'] = rng.sample(cands, rng.choice([1, 1, 2]))
         if sel_mode == 'nosuite':
-            run['nosuites'] = rng.sample(['sa', 'sb', f'{C.SUB}:xa', C.SUB, f'{C.TOP}:sb'], rng.choice([1, 2]))
+            run['nosuites'] = rng.sample(['sa', 'sb', f'{C.SUB}:xa', C.SUB, f'{C.TOP}:sb', f'{C.TOP}:sh', f'{C.SUB}:sh', ':sh'], rng.choice([1, 2]))
         if sel_mode == 'exclude':
             t = rng.choice(tests)
             run['exclude'] = [t['name'] if rng.random() < 0.5 else f"{t['proj']}:{t['name']}"]
@@ -131,6 +134,8 @@ class Check:
         scripts: T.Dict[str, T.Any] = {}
         for t in tests:
             scripts[t['id']] = self.gen_script(rng, t, run, sw, tick)
+        if rng.random() < 0.08 and len(tests) >= 2:
+            self.kill_window(rng, tests, run, scripts)
         run['scripts'] = scripts
         run['sim'] = {
             'tie_seed': rng.randrange(1 << 30), 'tie_random': rng.random() < 0.8,
@@ -139,7 +144,41 @@ class Check:
         }
         if rng.random() < 0.04:
             run['sim']['harness_signals'] = [[round(rng.uniform(0.0, 3.0), 3), 15]]
+        if run.get('sim_extra_signal'):
+            run['sim']['harness_signals'] = [run.pop('sim_extra_signal')]
         return run
+
+    def kill_window(self, rng: random.Random, tests: T.List[T.Dict[str, T.Any]], run: T.Dict[str, T.Any],
+                    scripts: T.Dict[str, T.Any]) -> None:
+        """Bias: a failure reaches --maxfail (or a signal reaches the harness) while
+        another test is inside its timeout kill sequence."""
+        sel = [t for t in tests if t['id'] in MR.select(tests, run, C.TOP) and t['parallel']]
+        cands = [t for t in sel if MR.effective_timeout(t['timeout'], run['tmult']) is not None]
+        if not cands or len(sel) < 2 or run['j'] < 2 or run.get('slice'):
+            return
+        a = rng.choice(cands)
+        b = rng.choice([t for t in sel if t is not a])
+        teff = MR.effective_timeout(a['timeout'], run['tmult'])
+        bteff = MR.effective_timeout(b['timeout'], run['tmult'])
+        when = round(teff + rng.choice([0.0, 0.1, 0.3, 0.6, 1.2]), 3)
+        if bteff is not None and when > bteff - BAND:
+            return
+        sa = scripts[a['id']]
+        sa.update({'dur': round(teff + 30.0, 3), 'term': rng.choice(['ignore', 'die']), 'term_delay': 0.45,
+                   'kill_delay': rng.choice([0.0, 0.3, 0.9])})
+        sa.pop('eof', None)
+        sb = scripts[b['id']]
+        sb.update({'dur': when, 'code': 1})
+        sb.pop('eof', None)
+        if 'tap_text' in sb:
+            sb['out'] = [[0.0, 1, sb['tap_text']]]
+        else:
+            sb['out'] = []
+        b['should_fail'] = False
+        if rng.random() < 0.7:
+            run['maxfail'] = 1
+        else:
+            run.setdefault('sim_extra_signal', [when, 15])
 
     def gen_script(self, rng: random.Random, t: T.Dict[str, T.Any], run: T.Dict[str, T.Any],
                    sw: T.Dict[str, float], tick: float) -> T.Dict[str, T.Any]:
@@ -256,7 +295,7 @@ class Check:
             summaries.append(agg.get('last_summary'))
         return R.ok(faults=agg['faults'], probes=agg['probes'], sim_time=agg['sim_time'], steps=agg['steps'],
                     interleavings=agg['interleavings'], nontrivial=agg['nontrivial'],
-                    distinct_key=prng.short(keyparts), summary=summaries)
+                    distinct_key=prng.short(keyparts), summary=summaries, trace_digest=prng.digest(agg.get('digests', [])))
 
     def one_run(self, root: str, bd: str, tests: T.List[T.Dict[str, T.Any]], byid: T.Dict[str, T.Dict[str, T.Any]],
                 run: T.Dict[str, T.Any], ri: int, agg: T.Dict[str, T.Any]) -> T.Optional[T.Dict[str, T.Any]]:
@@ -372,6 +411,8 @@ class Check:
                 order.append(f'K{pv[e["pid"]].tid}.{e["sig"]}')
         il = prng.short(order)
         agg['interleavings'].append(il)
+        agg.setdefault('digests', []).append(prng.digest([v['events'], v['rc'], v['end_time'], v['steps'],
+                                                          [(e.get('name'), e.get('result'), e.get('duration'), e.get('stdout')) for e in v['testlog']]]))
         if max_live >= 2:
             add(probes, 'overlap>=2')
         if serial_had_neighbour:
@@ -434,6 +475,9 @@ class Check:
                 vb = tap_ref.verdict_bad(tap_ref.interpret(lines), s['code'] != 0)
                 if vb is not None and vb != (got in MR.BAD):
                     return R.violation('misclassified', f'TAP test {p.tid} (exit {s["code"]}, output {s["tap_text"]!r}) reported {got}', 'misclassified:tap', trace=trace)
+            elif exp == 'TIMEOUT' and got == 'INTERRUPT' and (hsig or run.get('maxfail', 0) > 0) and terms[0][0] - p.spawn_t <= teff + 1e-6:
+                # the harness's own cancellation and the timer coincide: either may win the tie
+                any_interrupt = True
             elif exp is not None and got != exp:
                 return R.violation('misclassified', f'test {p.tid} (exit {s["code"]}, should_fail={t["should_fail"]}, limit {teff}, signals {terms}) '
                                    f'reported {got}, documented rule gives {exp}', f'misclassified:{exp}->{got}', trace=trace)
